@@ -89,7 +89,8 @@ contract(Contract(
             "line_wrapper": "opt[ref:LineWrapper]", "list_spacing": "enum:ListSpacing"},
     calls=CALLS,
     ensures={
-        "pipeline": Clause(expected_result, props=["C15", "C07", "C04", "C08", "C09", "C10", "C02"]),
+        # (C05 / C11: the wrappers are built from exactly the requested width, Markdown mode and the default minimum line length)
+        "pipeline": Clause(expected_result, props=["C15", "C07", "C04", "C08", "C09", "C10", "C02", "C05", "C11"]),
         "fresh_objects": Clause(fresh_objects, props=["C13"]),
     },
     canaries=[
@@ -97,6 +98,8 @@ contract(Contract(
         ("result = frontmatter + result", "result = result", ["C07"]),
         ("flowmark_markdown(line_wrapper, list_spacing)", "flowmark_markdown(line_wrapper)", ["C15", "C10"]),
         ("line_wrap_by_sentence(width=width, is_markdown=True)", "line_wrap_by_sentence(is_markdown=True)", ["C15"]),
+        ("line_wrap_by_sentence(width=width, is_markdown=True)", "line_wrap_by_sentence(width=width, is_markdown=True, min_line_len=width // 5)", ["C11"]),
+        ("line_wrap_to_width(width=width, is_markdown=True)", "line_wrap_to_width(width=width - 1, is_markdown=True)", ["C05"]),
         ("rewrite_text_content(document, apply_ellipses, coalesce_lines=True)",
          "rewrite_text_content(document, smart_quotes, coalesce_lines=True)", ["C09", "C04"]),
         ("if cleanups:\n        doc_cleanups(document)", "doc_cleanups(document)", ["C10"]),
